@@ -675,7 +675,7 @@ DigitLaw == Done => \A i \in Cells : IntCell(i) =>
                   ds == SelectSeq(t, LAMBDA c : val(c) < base)        \* the digits of the text (fill, sign and separators dropped)
                   nd == Len(DigitsOf(ops[i].v.mag, base))
                   signlen == IF ops[i].v.neg \/ ps.sign \in {cPlus, cSp} THEN 1 ELSE 0
-              IN (base # 0 /\ ~ps.alt /\ ps.fill \in {cSp, c0, 42, 233, 128512, cLt}) =>
+              IN (base # 0 /\ ~ps.alt /\ ps.fill \in {cSp, c0, 42, 233, 128512, cLt} /\ (ps.fill = c0 => ps.align \in {cEq, cGt})) =>
                    /\ Horner([j \in 1..Len(ds) |-> val(ds[j])] \o <<>>, base, ZeroM) = ops[i].v.mag      \* the digits denote |v| (leading zeros are harmless)
                    /\ ((\E j \in 1..Len(t) : t[j] = cMinus) <=> ops[i].v.neg)
                    /\ Len(t) >= ps.width
